@@ -7,8 +7,8 @@ func init() {
 	extraProfiles = func(add func(Profile)) {
 		add(Profile{Name: "C15", W: map[string]int{"write": 45, "ingest": 10, "ingestpair": 8, "excise": 4, "ingestexcise": 3, "maint": 22, "viewiter": 8, "viewop": 6, "close": 6, "snap": 3},
 			RangeKeys: 1, MaxSnaps: 2, MaxIters: 3, IterCls: "view", ReadIters: true})
-		add(Profile{Name: "C38", W: map[string]int{"write": 50, "ingest": 6, "maint": 12, "checkpoint": 18},
-			RangeKeys: 1})
+		add(Profile{Name: "C38", W: map[string]int{"write": 50, "ingest": 6, "maint": 12, "checkpoint": 14, "checkpointinner": 8},
+			RangeKeys: 1, FlushBeforeIngest: true})
 		add(Profile{Name: "C45", W: map[string]int{"write": 50, "ingest": 5, "maint": 12, "scanint": 18, "snap": 6, "close": 3},
 			RangeKeys: 1, MaxSnaps: 2})
 		add(Profile{Name: "C47", W: map[string]int{"write": 45, "ingest": 6, "excise": 2, "maint": 12, "snap": 6, "viewiter": 8, "viewop": 8, "batchnew": 4, "batchop": 6, "close": 6, "efos": 3},
@@ -25,6 +25,25 @@ func (g *Gen) actCheckpoint() {
 		e["spans"] = [][]int{{a, b}}
 	}
 	g.R.Exec(e)
+}
+
+// actCheckpointInner: writes issued while a Checkpoint is in progress (after it captured its view):
+// an ingestion (a version edit and a sequence number, no WAL record) followed by an ordinary
+// commit (a WAL record).  The checkpoint must still open as a prefix of the history.
+func (g *Gen) actCheckpointInner() {
+	tables, flat := g.ingestTables()
+	w := []Ev{g.writeOp(false, map[int]bool{})}
+	inner := []Ev{{"op": "ingest", "tables": tables, "ops": flat}, {"op": "commit", "ops": w, "sync": g.Rng.IntN(2) == 0}}
+	if g.Rng.IntN(3) == 0 {
+		inner = inner[1:]
+	}
+	e := Ev{"op": "checkpoint", "flushwal": g.Rng.IntN(2) == 0, "spans": [][]int{}, "inner": inner}
+	g.preIngest()
+	g.R.Exec(e)
+	for _, ie := range inner {
+		g.track(ie["ops"].([]Ev))
+	}
+	g.afterWrite()
 }
 
 func (g *Gen) actScanInt() {
